@@ -317,6 +317,31 @@ def job_op(job):
     known = driver.load_known()
     agg = Agg()
     t_start = time.monotonic()
+    # ---------------- D: one real-decorator first-use race, before anything is compiled here ----
+    # (real threads, real numba compile of a kernel this job needs anyway; sound, not schedulable)
+    if job.get("race_first"):
+        from . import realrace
+
+        cands = sorted(k for k, o in realrace.KERNEL_OP.items() if o == op)
+        if cands:
+            kernel = random.Random(f"{seed}/D-pick/{op}").choice(cands)
+            t_d = time.monotonic()
+            try:
+                nthr = random.Random(f"{seed}/D/{kernel}").choice([2, 3, 4, 8])
+                viol = realrace.race(kernel, seed, nthr)
+                agg.d["runs"] += 1
+                agg.bump("runs_by_workload", "D")
+                agg.bump("probes", "real_decorator_first_use_races")
+                seen_d = set()
+                for vclass, msg in viol:
+                    if vclass in seen_d:
+                        continue
+                    seen_d.add(vclass)
+                    agg.bump("violation_counts", f"{kernel}:{vclass}")
+                    agg.d["violations"].append({"property": PROP, "workload": "D", "tag": f"{kernel}:{vclass}", "key": f"{seed}/D/{kernel}", "violation": {"class": vclass, "message": msg}, "kernel": kernel, "seed": seed, "threads": nthr, "tape": [], "digest": ""})
+            except Exception as e:  # noqa: BLE001
+                agg.d["harness"].append(f"realrace {kernel}: {type(e).__name__}: {e}")
+            agg.bump("wall", "D", time.monotonic() - t_d)
     # ---------------- deterministic probes of the listed known findings ----------------
     for f in known.get("findings", []):
         if f.get("property") == PROP and f.get("where", {}).get("op") == op and f.get("probe") and job["budget_A"]:
@@ -583,6 +608,7 @@ def run_check(args):
                     "budget_A": conf["A"] if "A" in only else 0,
                     "budget_B": conf["B"] if "B" in only else 0,
                     "n_real": conf["n_real"] if "R" in only else 0,
+                    "race_first": "D" in only and not args.dump,
                     **({"dump": True, "max_runs": args.max_runs, "max_runs_B": args.max_runs, "budget_A": 10**6 if "A" in only else 0, "budget_B": 10**6 if "B" in only else 0} if args.dump else {}),
                 }
             )
